@@ -196,6 +196,31 @@ def in_unit(pos):
     return bool(np.all((p >= 0.0) & (p <= 1.0)))
 
 
+DRAWS = {'low': lambda r: (lambda lo, hi, k: [lo] * k), 'high': lambda r: (lambda lo, hi, k: [hi] * k),
+         'rand': lambda r: (lambda lo, hi, k: [r.uniform(lo, hi) for _ in range(k)])}
+
+
+def space_check(n, d, lb, ub, na, mode, raw, r):
+    """Construct a HyperSpace (scripted uniform draws), overwrite the positions with `raw`, enforce the limits."""
+    msg = None
+    with hlib.ScriptedUniform(DRAWS[mode](r)):
+        s = HyperSpace(n_agents=na, n_variables=n, n_dimensions=d, n_iterations=1, lower_bound=lb, upper_bound=ub)
+    for ag in s.agents:
+        if ag.position.shape != (n, d) or not in_unit(ag.position):
+            msg = 'a freshly initialised agent is outside the unit box: %r' % ag.position.tolist()
+    for ag, p in zip(s.agents, raw):
+        ag.position = np.array(p, dtype=float)
+    s.check_limits()
+    for ag, p in zip(s.agents, raw):
+        if not in_unit(ag.position):
+            msg = msg or 'after check_limits an agent is outside the unit box: %r' % ag.position.tolist()
+        pin = np.array(p, dtype=float)
+        keep = (pin >= 0.0) & (pin <= 1.0)
+        if ag.position.shape != pin.shape or not np.array_equal(ag.position[keep], pin[keep]):
+            msg = msg or 'check_limits changed a coordinate that was already inside [0, 1]'
+    return msg
+
+
 def space_cases():
     r = hlib.rng('c13space')
     res = []
@@ -207,41 +232,46 @@ def space_cases():
         lb, ub = bounds(r, n, bc)
         na = r.randint(1, 4)
         mode = r.choice(['low', 'high', 'rand'])
-        fn = {'low': lambda lo, hi, k: [lo] * k, 'high': lambda lo, hi, k: [hi] * k,
-              'rand': lambda lo, hi, k: [r.uniform(lo, hi) for _ in range(k)]}[mode]
-        msg = None
-        with hlib.ScriptedUniform(fn):
-            s = HyperSpace(n_agents=na, n_variables=n, n_dimensions=d, n_iterations=1, lower_bound=lb, upper_bound=ub)
-        for ag in s.agents:
-            if ag.position.shape != (n, d) or not in_unit(ag.position):
-                msg = 'a freshly initialised agent is outside the unit box: %r' % ag.position.tolist()
-        # arbitrary positions, then enforcement
-        raw = []
-        for ag in s.agents:
-            p = np.array([[r.choice([-INF, INF, -1e308, 1e308, -5e-324, -0.0, 0.0, 1.0, nextafter(1.0, 2.0), r.uniform(-3, 4),
-                                     r.uniform(0, 1), lb[j], ub[j]]) for _ in range(d)] for j in range(n)], dtype=float)
-            raw.append(p.tolist())
-            ag.position = p.copy()
-        s.check_limits()
-        for ag, p in zip(s.agents, raw):
-            if not in_unit(ag.position):
-                msg = msg or 'after check_limits an agent is outside the unit box: %r' % ag.position.tolist()
-            pin = np.array(p)
-            keep = (pin >= 0.0) & (pin <= 1.0)
-            if not np.array_equal(ag.position[keep], pin[keep]):
-                msg = msg or 'check_limits changed a coordinate that was already inside [0, 1]'
-        res.append({'n': n, 'd': d, 'bounds': bc, 'lb': [float(v) for v in lb], 'ub': [float(v) for v in ub], 'draw': mode,
+        raw = [[[r.choice([-INF, INF, -1e308, 1e308, -5e-324, -0.0, 0.0, 1.0, nextafter(1.0, 2.0), r.uniform(-3, 4),
+                           r.uniform(0, 1), float(lb[j]), float(ub[j])]) for _ in range(d)] for j in range(n)] for _ in range(na)]
+        msg = space_check(n, d, lb, ub, na, mode, raw, r)
+        res.append({'n': n, 'd': d, 'na': na, 'bounds': bc, 'lb': [key(v) for v in lb], 'ub': [key(v) for v in ub], 'draw': mode,
                     'raw': [[[key(v) for v in row] for row in p] for p in raw], 'oracle': msg})
     return res
 
 
-def run_cases():
-    """Short optimisation tasks on a HyperSpace: every position handed to the objective is in the unit box
-    and its span is inside the bounds."""
+def make_objective(lb, ub, seen):
+    def f(x):
+        seen['n'] += 1
+        if not in_unit(x) and seen['bad'] is None:
+            seen['bad'] = 'objective received a position outside the unit box: %r' % np.asarray(x).tolist()
+        v = h.span(x, lb, ub)
+        return float(np.sum(np.asarray(v, dtype=float) ** 2))
+    return f
+
+
+def run_check(optimizer, n, d, lb, ub, np_seed):
+    """A short optimisation task on a HyperSpace: every position handed to the objective is in the unit box."""
     from opytimizer import Opytimizer
     from opytimizer.core.function import Function
     from opytimizer.optimizers.pso import PSO
     from opytimizer.optimizers.sca import SCA
+    seen = {'n': 0, 'bad': None}
+    f = make_objective(lb, ub, seen)
+    np.random.seed(np_seed)
+    opt = {'PSO': PSO, 'SCA': SCA}[optimizer]()
+    s = HyperSpace(n_agents=4, n_variables=n, n_dimensions=d, n_iterations=6, lower_bound=lb, upper_bound=ub)
+    try:
+        Opytimizer(space=s, optimizer=opt, function=Function(pointer=f)).start()
+    except Exception as ex:  # noqa: BLE001
+        seen['bad'] = seen['bad'] or 'task raised %s: %s' % (type(ex).__name__, ex)
+    for ag in s.agents:
+        if not in_unit(ag.position):
+            seen['bad'] = seen['bad'] or 'an agent ends the task outside the unit box: %r' % ag.position.tolist()
+    return seen['bad'], seen['n']
+
+
+def run_cases():
     r = hlib.rng('c13run')
     res = []
     n_runs = 4 if hlib.QUICK else 40
@@ -249,26 +279,11 @@ def run_cases():
         n = r.randint(1, 3)
         d = r.randint(1, 4)
         lb, ub = bounds(r, n, r.choice(['generic', 'negative', 'wide', 'int']))
-        seen = {'n': 0, 'bad': None}
-
-        def f(x, lb=lb, ub=ub, seen=seen):
-            seen['n'] += 1
-            if not in_unit(x) and seen['bad'] is None:
-                seen['bad'] = 'objective received a position outside the unit box: %r' % np.asarray(x).tolist()
-            v = h.span(x, lb, ub)
-            return float(np.sum(np.asarray(v, dtype=float) ** 2))
-        np.random.seed(hlib.SEED * 1000 + i)
-        opt = PSO() if i % 2 == 0 else SCA()
-        s = HyperSpace(n_agents=4, n_variables=n, n_dimensions=d, n_iterations=6, lower_bound=lb, upper_bound=ub)
-        try:
-            Opytimizer(space=s, optimizer=opt, function=Function(pointer=f)).start()
-        except Exception as ex:  # noqa: BLE001
-            seen['bad'] = seen['bad'] or 'task raised %s: %s' % (type(ex).__name__, ex)
-        for ag in s.agents:
-            if not in_unit(ag.position):
-                seen['bad'] = seen['bad'] or 'an agent ends the task outside the unit box: %r' % ag.position.tolist()
-        res.append({'optimizer': type(opt).__name__, 'n': n, 'd': d, 'lb': [float(v) for v in lb], 'ub': [float(v) for v in ub],
-                    'np_seed': hlib.SEED * 1000 + i, 'evaluations': seen['n'], 'oracle': seen['bad']})
+        name = 'PSO' if i % 2 == 0 else 'SCA'
+        seed = (hlib.SEED * 1000 + i) % (2 ** 32)
+        bad, ne = run_check(name, n, d, lb, ub, seed)
+        res.append({'optimizer': name, 'n': n, 'd': d, 'lb': [key(v) for v in lb], 'ub': [key(v) for v in ub],
+                    'np_seed': seed, 'evaluations': ne, 'oracle': bad})
     return res
 
 
